@@ -219,7 +219,7 @@ PROPS = {
         ],
     },
     "C01": {
-        "lean_modules": ["TableauVerif.Props.C01"],
+        "lean_modules": ["TableauVerif.Props.C01", "TableauVerif.Props.C01List"],
         "oracles": ["c01.rt"],
         "streams": [
             ("e2e.C01.roundtrip", 8000, 300000),
@@ -257,7 +257,7 @@ PROPS = {
         ],
     },
     "C20": {
-        "lean_modules": ["TableauVerif.Props.C20"],
+        "lean_modules": ["TableauVerif.Props.C20", "TableauVerif.Props.C20Civil"],
         "oracles": ["c20.ts"],
         "streams": [
             ("corr.xproto.parseTime", 20000, 600000),
